@@ -289,6 +289,10 @@ EncVecs(lazy) ==
    {[kind |-> "enc", sub |-> "srpol", u |-> p] : p \in PolicyPool}
    \cup {[kind |-> "enc", sub |-> "pmsi", u |-> p] : p \in PmsiPool}
    \cup {[kind |-> "enc", sub |-> "srte", u |-> n] : n \in SrtePool}
+   \* IPv6 unicast whose request names the link-local next hop with an empty value ("" / null, as a templating client
+   \* writes it when there is none): one global next hop of 16 octets, or no message
+   \cup {[kind |-> "enc", sub |-> "v6ll", u |-> [ll |-> ll, ps |-> ps]] : ll \in {"empty", "null", "absent"},
+            ps \in {<<P6v6[1]>>, <<P6v6[6]>>, <<P6v6[1], P6v6[3], P6v6[6]>>, <<Pfx6(128, A6a)>>, <<Pfx6(64, A6a), Pfx6(0, A6a)>>}}
    \* EVPN IP prefix routes (type 5; the agent constructs them, C07 does not list them): IPv4 / IPv6 prefix, gateway of the
    \* same family or left out of the request, announced and withdrawn
    \cup {e \in {[kind |-> "enc", sub |-> "evpn5", u |-> [reach |-> r, pa |-> p[1], pl |-> p[2], gw |-> g, label |-> l]] :
@@ -316,6 +320,9 @@ EncBytes(v) ==
        mp(val) == LET a == EncAttrs(MpBase, TRUE, FALSE) \o AttrTLV(14, val, TRUE) IN Message(2, U16(0) \o U16(Len(a)) \o a)
    IN CASE v.sub = "srpol" -> withAttr(23, EncTunnelEncaps(v.u), TRUE)
         [] v.sub = "pmsi" -> withAttr(22, EncPmsi(v.u), FALSE)
+        [] v.sub = "v6ll" ->
+              LET a == EncAttrs(MpBase, TRUE, FALSE) \o AttrTLV(14, EncMpReach("ipv6", Nh6, v.u.ps), TRUE)
+              IN Message(2, U16(0) \o U16(Len(a)) \o a)
         [] v.sub = "evpn5" ->
               LET gw == IF v.u.gw = <<>> THEN Zeros(Len(v.u.pa)) ELSE v.u.gw
                   rt == EncRd(Rd0) \o Zeros(10) \o U32hl(<<0, 100>>) \o <<v.u.pl>> \o v.u.pa \o gw \o EncLabel(v.u.label, TRUE)
